@@ -17,7 +17,7 @@ import itertools, json, os, subprocess, sys, time
 from concurrent.futures import ThreadPoolExecutor
 import vlib
 
-COQ_FILES = ["Pause/Model.v", "Pause/Proofs.v", "Pause/Mutants.v", "Pause/Props.v"]
+COQ_FILES = ["Pause/Model.v", "Pause/Proofs.v", "Pause/Mutants.v", "Pause/ReloadModel.v", "Pause/ReloadProofs.v", "Pause/Props.v"]
 PREAMBLE = "From PV Require Import Pause.Model.\nFrom Coq Require Import List. Import ListNotations."
 
 # ----------------------------------------------------------------------------- python copy of the
@@ -296,9 +296,7 @@ def model_traces(name, cases):
     """cases: list of (n, [events]).  Returns per case a list of per-step views
     (paused, mid, [status], [loaded_p or None]) or None where the model rejects the step."""
     exprs = ["(trace_codes %d [%s])" % (n, "; ".join(coq_ev(e) for e in evs)) for n, evs in cases]
-    # NB shard size: vlib.coq_eval reads coqc's stdout only after exit, so one shard's output must stay below the pipe buffer
-    per = max((len(evs) * (10 + 3 * n) + 80 for n, evs in cases), default=100)
-    vals = vlib.coq_eval(name, PREAMBLE, exprs, shard=max(8, min(150, 36000 // per)))
+    vals = vlib.coq_eval(name, PREAMBLE, exprs, shard=400)
     code = {0: "idle", 1: "reg", 2: "loaded", 3: "loaded", 4: "blocked", 5: "passed"}
     res = []
     for v in vals:
@@ -578,26 +576,56 @@ def _adm(sql):
     return {"op": "admin", "sql": sql}
 
 
-# name, ops, expectations: list of (index of op, {client: status}) checked right after that op, final {client: status}
+CFG_C = _G + _pool("db2", 2)                           # db1 removed
+
+# name, ops, [(index of op, {client: status}, {pool: paused})] checked right after that op, final {client: status},
+# id of the finding this scenario is the regression case of (None: plain property statement)
 ADMIN_SCENARIOS = [
     ("PAUSE db,user holds that pool only; RESUME db,user releases",
      [{"op": "config", "toml": CFG_A}, _conn(0, "db1"), _conn(1, "db2"), _adm("PAUSE db1,u"), _q(0), _q(1), _adm("RESUME db2,u"), _adm("RESUME db1,u")],
-     [(5, {0: "blocked", 1: "passed"}), (6, {0: "blocked"})], {0: "passed", 1: "passed"}),
+     [(3, {}, {"u@db1": True, "u@db2": False}), (5, {0: "blocked", 1: "passed"}, {}), (6, {0: "blocked"}, {"u@db1": True})], {0: "passed", 1: "passed"}, None),
     ("PAUSE (all pools) holds every pool; RESUME releases every held client",
      [{"op": "config", "toml": CFG_A}, _conn(0, "db1"), _conn(1, "db2"), _conn(2, "db1"), _adm("pause;"), _q(0), _q(1), _adm("RESUME"), _q(2)],
-     [(6, {0: "blocked", 1: "blocked"})], {0: "passed", 1: "passed", 2: "passed"}),
+     [(4, {}, {"u@db1": True, "u@db2": True}), (6, {0: "blocked", 1: "blocked"}, {})], {0: "passed", 1: "passed", 2: "passed"}, None),
     ("PAUSE of an unknown pool pauses nothing",
      [{"op": "config", "toml": CFG_A}, _conn(0, "db1"), _adm("PAUSE nodb,u"), _adm("PAUSE db1"), _q(0)],
-     [], {0: "passed"}),
+     [(3, {}, {"u@db1": False, "u@db2": False})], {0: "passed"}, None),
     ("RELOAD of an unchanged configuration while paused keeps the pause; RESUME releases",
      [{"op": "config", "toml": CFG_A}, _conn(0, "db1"), _conn(1, "db1"), _adm("PAUSE"), _q(0), _adm("RELOAD"), _q(1), _adm("RESUME")],
-     [(6, {0: "blocked", 1: "blocked"})], {0: "passed", 1: "passed"}),
+     [(5, {}, {"u@db1": True}), (6, {0: "blocked", 1: "blocked"}, {})], {0: "passed", 1: "passed"}, None),
+    # regression of C16-RELOAD-WHILE-PAUSED (fixed: the rebuilt pool shares the pause flag and the Notify)
+    ("PAUSE; RELOAD with db1's server changed; RESUME: the held session and a session whose first query comes after RESUME both proceed; the pause survives the RELOAD",
+     [{"op": "config", "toml": CFG_A}, _conn(0, "db1"), _conn(1, "db1"), _conn(2, "db2"), _adm("PAUSE"), _q(0),
+      {"op": "write_config", "toml": CFG_B}, _adm("RELOAD"), _adm("RESUME"), _q(1), _q(2)],
+     [(7, {0: "blocked"}, {"u@db1": True, "u@db2": True}), (8, {0: "passed"}, {"u@db1": False})], {0: "passed", 1: "passed", 2: "passed"}, "C16-RELOAD-WHILE-PAUSED"),
+    ("RELOAD with db1's server changed, then PAUSE: a session that still holds the old pool object is held, RESUME releases it",
+     [{"op": "config", "toml": CFG_A}, _conn(0, "db1"), {"op": "write_config", "toml": CFG_B}, _adm("RELOAD"), _adm("PAUSE"), _q(0), _adm("RESUME")],
+     [(5, {0: "blocked"}, {"u@db1": True})], {0: "passed"}, "C16-RELOAD-WHILE-PAUSED"),
+    ("PAUSE; RELOAD (db1 changed); a NEW session on db1 is held too; RESUME db1,u releases old and new sessions",
+     [{"op": "config", "toml": CFG_A}, _conn(0, "db1"), _adm("PAUSE db1,u"), _q(0), {"op": "write_config", "toml": CFG_B}, _adm("RELOAD"), _conn(1, "db1"), _q(1), _adm("RESUME db1,u")],
+     [(7, {0: "blocked", 1: "blocked"}, {"u@db1": True})], {0: "passed", 1: "passed"}, "C16-RELOAD-WHILE-PAUSED"),
 ]
-# RELOAD that re-creates a paused pool (the canonical "PAUSE; repoint the server; RELOAD; RESUME")
-RELOAD_SCENARIO = ("PAUSE; RELOAD with db1's server changed; RESUME — sessions that existed before the RELOAD",
-                   [{"op": "config", "toml": CFG_A}, _conn(0, "db1"), _conn(1, "db1"), _conn(2, "db2"), _adm("PAUSE"), _q(0),
-                    {"op": "write_config", "toml": CFG_B}, _adm("RELOAD"), _adm("RESUME"), _q(1), _q(2)],
-                   [], {0: "passed", 1: "passed", 2: "passed"})
+# regression of C16-POOL-REMOVED-WHILE-PAUSED (fixed: from_config resumes the pools it drops)
+ADMIN_SCENARIOS += [
+    ("PAUSE; RELOAD that removes pool db1; RESUME: a session of db1 that sends a query is not held (it goes on to the 'No pool configured' error), db2 unaffected",
+     [{"op": "config", "toml": CFG_A}, _conn(0, "db1"), _conn(1, "db2"), _adm("PAUSE"), {"op": "write_config", "toml": CFG_C}, _adm("RELOAD"), _adm("RESUME"), _q(0), _q(1)],
+     [(5, {}, {"u@db2": True, "u@db1": None})], {0: "passed", 1: "passed"}, "C16-POOL-REMOVED-WHILE-PAUSED"),
+    ("PAUSE; a session of db1 is held; RELOAD that removes pool db1 releases it at once; PAUSE db1,u / RESUME db1,u are refused afterwards",
+     [{"op": "config", "toml": CFG_A}, _conn(0, "db1"), _adm("PAUSE"), _q(0), {"op": "write_config", "toml": CFG_C}, _adm("RELOAD"), _adm("PAUSE db1,u")],
+     [(3, {0: "blocked"}, {}), (5, {0: "passed"}, {"u@db1": None})], {0: "passed"}, "C16-POOL-REMOVED-WHILE-PAUSED"),
+]
+
+
+_QUERY = "Base (CReg %d); Base (CLoad %d); Base (CDecide %d)"
+_RESUME = "Base AStore; Base ANotify"
+# scenario name prefix -> (number of db1 sessions, schedule of Pause.ReloadModel for pool db1)
+RELOAD_MODEL = {
+    "PAUSE; RELOAD with db1's server changed; RESUME:": (2, "[Base APause; %s; ReloadShared; %s; Base (CWake 0); Refresh 0; %s]" % (_QUERY % (0, 0, 0), _RESUME, _QUERY % (1, 1, 1))),
+    "RELOAD with db1's server changed, then PAUSE:": (1, "[ReloadShared; Base APause; %s; %s; Base (CWake 0)]" % (_QUERY % (0, 0, 0), _RESUME)),
+    "PAUSE; RELOAD (db1 changed); a NEW session": (2, "[Base APause; %s; ReloadShared; %s; %s; Base (CWake 0); Base (CWake 1)]" % (_QUERY % (0, 0, 0), _QUERY % (1, 1, 1), _RESUME)),
+    "PAUSE; RELOAD that removes pool db1; RESUME:": (1, "[Base APause; ReloadRemove; %s]" % (_QUERY % (0, 0, 0))),
+    "PAUSE; a session of db1 is held; RELOAD that removes": (1, "[Base APause; %s; ReloadRemove; Base (CWake 0)]" % (_QUERY % (0, 0, 0))),
+}
 
 
 def run_admin(binp, tag, ops):
@@ -612,34 +640,45 @@ def status_of(obs):
 
 
 def check_admin(run, binp):
-    """PAUSE / RESUME through the real admin command handler (pgcat::admin::handle_admin on an
-    in-memory stream), sessions modelled as client.rs does: pool resolved at connect, wait_paused()
-    on the pool the session holds, refreshed afterwards."""
-    todo = ADMIN_SCENARIOS + [RELOAD_SCENARIO]
+    """PAUSE / RESUME / RELOAD through the real admin command handler (pgcat::admin::handle_admin on
+    an in-memory stream, real config::parse + ConnectionPool::from_config, validate_config = false so
+    no server is needed); sessions as in Client::handle: pool resolved at connect, wait_paused() on
+    the pool object the session holds, re-resolved afterwards.  The expectations are the property's
+    statements, not a model."""
+    todo = ADMIN_SCENARIOS
     with ThreadPoolExecutor(max_workers=8) as ex:
         answers = list(ex.map(lambda t: run_admin(binp, "s%d" % t[0], t[1][1]), list(enumerate(todo))))
     n = 0
-    for (name, ops, mids, fin), ans in zip(todo, answers):
+    for (name, ops, mids, fin, fid), ans in zip(todo, answers):
         n += 1
         slim = [dict(o, toml="<%d bytes>" % len(o["toml"])) if "toml" in o else o for o in ops]
         bad = []
-        for idx, want in mids:
-            got = status_of(ans["trace"][idx]["obs"])
+        for idx, want, wantp in mids:
+            obs = ans["trace"][idx]["obs"]
+            got = status_of(obs)
+            gotp = {p["pool"]: p["paused"] for p in obs["pools"]}
             bad += ["after op %d (%s): client %d is %s, the property says %s" % (idx, json.dumps(slim[idx]), c, got.get(c), w) for c, w in want.items() if got.get(c) != w]
+            bad += ["after op %d (%s): SHOW POOLS paused(%s) = %s, expected %s" % (idx, json.dumps(slim[idx]), k, gotp.get(k), w) for k, w in wantp.items() if gotp.get(k) != w]
         got = status_of(ans["final"])
         bad += ["at the end: client %d is %s, the property says %s" % (c, got.get(c), w) for c, w in fin.items() if got.get(c) != w]
+        if fid == "C16-POOL-REMOVED-WHILE-PAUSED":
+            c0 = [c for c in ans["final"]["clients"] if c["client"] == 0][0]
+            if c0.get("pool_still_configured") is not False:
+                bad.append("the session of the removed pool would not get the 'No pool configured' error (get_pool still answers)")
+        for prefix, (nm, sched) in RELOAD_MODEL.items():
+            if name.startswith(prefix):
+                val = vlib.parse_coq(vlib.coq_eval("c16_reload", "From PV Require Import Pause.Model Pause.ReloadModel.\nFrom Coq Require Import List. Import ListNotations.",
+                                                   ["(rfinal %d %s)" % (nm, sched)])[0])
+                code = {0: "idle", 1: "reg", 2: "loaded", 3: "loaded", 4: "blocked", 5: "passed"}
+                gotp = {p["pool"]: p["paused"] for p in ans["final"]["pools"]}
+                if not val or [code[x] for x in val[1:]] != [got.get(c) for c in range(nm)] or {0: False, 1: True, 2: None}[val[0]] != gotp.get("u@db1"):
+                    bad.append("Pause.ReloadModel.rfinal = %s, implementation: clients %s, db1 paused %s" % (val, [got.get(c) for c in range(nm)], gotp.get("u@db1")))
+                run.cov["reload_model_scenarios"] = run.cov.get("reload_model_scenarios", 0) + 1
         if not bad:
             run.cov["traces_validated_against_impl"] += 1
             continue
-        if name == RELOAD_SCENARIO[0]:
-            stuck = sorted(c for c, w in fin.items() if got.get(c) == "blocked")
-            run.known_finding("RELOAD that re-creates a paused pool loses the PAUSE and strands its sessions: after `PAUSE; RELOAD (db1's server changed); RESUME` "
-                              "clients %s (connected before the RELOAD; one was already held, one sent its first query only after RESUME had been acknowledged) stay blocked in wait_paused() for ever — "
-                              "RESUME walks get_all_pools(), the old pool object that the sessions still hold (client.rs Client::handle: resolved at session start, wait_paused() runs on it, re-resolved only afterwards) is no longer in it; "
-                              "SHOW POOLS reports db1 paused=0 right after the RELOAD" % stuck, key="C16-RELOAD-WHILE-PAUSED")
-            run.cov.setdefault("findings", []).append({"id": "C16-RELOAD-WHILE-PAUSED", "scenario": slim, "final": ans["final"], "monitor": bad})
-        else:
-            run.violation("counterexample", "admin console: %s — %s" % (name, bad[0]), {"admin_scenario": {"name": name, "ops": ops}, "monitor": bad, "impl_trace": ans})
+        run.violation("counterexample", "admin console%s: %s — %s" % (" (regression of %s)" % fid if fid else "", name, bad[0]),
+                      {"admin_scenario": {"name": name, "ops": ops}, "monitor": bad, "impl_trace": ans})
     run.cov["admin_console_scenarios"] = n
     return n
 
@@ -647,7 +686,7 @@ def check_admin(run, binp):
 def check(run):
     quick = run.tier == "quick"
     run.assumptions += [
-        "Coq 8.16.1 kernel + vm_compute; no axioms (Print Assumptions: closed under the global context for all 14 theorems)",
+        "Coq 8.16.1 kernel + vm_compute; no axioms (Print Assumptions: closed under the global context for all 19 theorems)",
         "Env tokio 1.29.1 Notify (sync/notify.rs:472-474, 505-515, 619-636, 918-923): notified() snapshots the notify_waiters call counter; a later notify_waiters() completes the future even if never polled — modelled as gen/snap, exercised by every hooked schedule, not proved",
         "Ordering::Relaxed accesses to `paused` are modelled as sequentially consistent atomic steps (platform assumption; the hooked harness serialises steps through a mutex, the free-running races run the real orderings on x86-64)",
         "one admin console issues PAUSE/RESUME sequentially (a PAUSE between another console's store and notify is outside the guarantee: c16_two_admin_refuted)",
@@ -686,18 +725,18 @@ def check(run):
         families.append(("2 clients x 1 transaction, admin programs PP, RR, PRR, RPR, PRPR (CWake eager)", fam))
         fam = []
         for pr in ["PR", "RP", "PRP", "RPR", "PRPR"]:
-            fam += [(2, s) for s in random_schedules(2, 2, pr, 20000, run.rng)]
-        families.append(("2 clients x 2 transactions, admin PR, RP, PRP, RPR, PRPR: 20000 seeded random walks each (distinct ones kept)", fam))
+            fam += [(2, s) for s in random_schedules(2, 2, pr, 10000, run.rng)]
+        families.append(("2 clients x 2 transactions, admin PR, RP, PRP, RPR, PRPR: 10000 seeded random walks each (distinct ones kept)", fam))
         fam = []
         for pr in ["P", "R", "PR", "RP"]:
             fam += [(3, s) for s in enumerate_schedules(3, 1, pr, wake="eager", symmetric=True)]
         families.append(("3 clients x 1 transaction, admin P, R, PR, RP, every interleaving up to client symmetry (CWake eager)", fam))
         fam = []
         for pr in ["PRP", "PRPR"]:
-            fam += [(3, s) for s in random_schedules(3, 1, pr, 20000, run.rng)]
-        families.append(("3 clients x 1 transaction, admin PRP, PRPR: 20000 seeded random walks each (distinct ones kept)", fam))
-        fam = [(3, s) for s in random_schedules(3, 2, "PRPR", 20000, run.rng)]
-        families.append(("3 clients x 2 transactions, admin PRPR: 20000 seeded random walks (distinct ones kept)", fam))
+            fam += [(3, s) for s in random_schedules(3, 1, pr, 10000, run.rng)]
+        families.append(("3 clients x 1 transaction, admin PRP, PRPR: 10000 seeded random walks each (distinct ones kept)", fam))
+        fam = [(3, s) for s in random_schedules(3, 2, "PRPR", 10000, run.rng)]
+        families.append(("3 clients x 2 transactions, admin PRPR: 10000 seeded random walks (distinct ones kept)", fam))
     fam = [(2, s) for s in transition_cover(2)]
     families.append(("model-guided BFS: for every reachable (abstract state, step) pair of the 2-client model a shortest schedule ending with it", fam))
 
